@@ -257,6 +257,29 @@ def arm_of(body, arms, otherwise, bb):
     inside = sorted(v for v, e in arms.items() if bb in arm_region(body, e))
     if inside and len(inside) < len(arms):
         return "|".join(inside)
+    # a block behind the join of the arms (the dispatch is done in stages: the arms leave a note -- `Followup::Puback(id)`,
+    # a flag -- and the work happens after the match): the kinds of the dispatched value for which the block can run
+    if body.fn.get("flat") and body.facts is not None:
+        root = None
+        for d in sorted(body.reach):
+            t = body.term(d)
+            if t["k"] == "switch" and arms and set(arms.values()) <= {x for _, x in t["targets"]} | {t["otherwise"]}:
+                si = body.switch_info(d)
+                if si and si["kind"] == "discr" and si.get("adt") and body.facts.adt(si["adt"]) is not None:
+                    root = (d, si["adt"])
+                    break
+        if root is not None and bb in body.reachable_from(root[0]):
+            import spec as _spec
+            class _C:       # variant_specs only needs the fact base
+                facts = body.facts
+            vs = _spec.variants_reaching(_C, body, root[1], root[0], bb)
+            allv = {v["name"] for v in body.facts.adt(root[1])["variants"]}
+            if vs and set(vs) != allv:
+                listed = [v for v in vs if v in arms]
+                rest = [v for v in vs if v not in arms]
+                if rest and otherwise is not None and not listed:
+                    return "otherwise"
+                return "|".join(sorted(vs))
     return None
 
 
